@@ -173,4 +173,16 @@ theorem runs_blocks (cfg : Cfg) (sizes : List Nat) : ∀ (g : TG),
       rw [alloc_size]
     · simp only [TG.run, List.length_cons]; omega
 
+/-- the states a task group can be in: after the constructor, after `run`, after `wait` -/
+inductive Reach (cfg : Cfg) : TG → Prop where
+  | init : Reach cfg (TG.init cfg)
+  | run {g} (size : Nat) : Reach cfg g → Reach cfg (g.run cfg size)
+  | wait {g} : Reach cfg g → Reach cfg (g.wait cfg).2
+
+theorem reach_inv (cfg : Cfg) (hc : 0 < cfg.cap) (g : TG) (h : Reach cfg g) : Inv cfg g := by
+  induction h with
+  | init => exact inv_init cfg
+  | run size _ ih => exact run_inv cfg hc _ size ih
+  | wait _ ih => exact wait_inv cfg _ ih
+
 end MythVerif.TaskGroup
